@@ -373,3 +373,6 @@ PROPS['C15']['explanation'] += (' REGENERATED from src/state.rs (Gen/Keys.v): C1
 PROPS['C03']['explanation'] += (' REGENERATED from src/state.rs (Gen/Keys.v): C03_sibling_order_is_name_then_constraint - the eight Ord impls compare the name (literal nodes: the prefix), constrained states then the constraint, every PartialOrd delegates; the model order kcmp is that comparison.')
 PROPS['C10']['explanation'] += (' REGENERATED from src/router.rs (Gen/Shapes.v): C10_validation_precedes_mutation - in Router::insert and Router::delete every validation step returns before the first mutating call, conflicts are sorted then deduplicated, optimize follows the mutation loop, and a delete that removed nothing reports NotFound before optimize: the order of Model/Router.v.')
 PROPS['C08']['explanation'] += (' REGENERATED from src/router.rs (Gen/Shapes.v): C08_conflicts_collected_sorted_then_deduplicated.')
+PROPS['C05']['explanation'] += (' REGENERATED from src/node/optimize.rs (Gen/Shortcuts.v): C05_regenerated_shortcut_flags_are_the_model_conditions - update_dynamic_children_shortcut / update_wildcard_children_shortcut, translated into a small condition language, compiled and read over the model nodes, equal dyn_cond / wild_cond of Model/Ops.v on EVERY node (translation plus theorem, not sampling).')
+PROPS['C09']['explanation'] += (' C09_regenerated_prune_tests_are_the_model_tests - the regenerated conjuncts of is_empty / is_compressible, compiled and read over the model nodes, equal the model tests on every node.')
+PROPS['C03']['explanation'] += (' REGENERATED from src/node/search.rs (Gen/Rankings.v): C03_regenerated_ranking_is_the_documented_priority - the closure of each of the six best_match.map_or(..) sites, read over the model route infos, is `better` of the documented walk for every pair of infos; no other use of best_match.')
